@@ -20,7 +20,7 @@ RULE = ("case = generated enum (idents, explicit/implicit values, renames incl. 
 
 PROFILE = S.profile(renames=0.5, dups=0.1, attrs=0.1, cfg_off=0.0, sizes=[("small", 95), ("medium", 5)],
                     orders=["identity"])
-ARRANGE = ["both", "by_value", "by_name", "by_value_swap", "by_name_swap", "both_swap", "as_is", "reverse", "by_name_dup", "by_value_rotate", "by_name_rotate"]
+ARRANGE = ["both", "by_value", "by_name", "by_value_swap", "by_name_swap", "both_swap", "as_is", "reverse", "by_name_dup", "by_value_rotate", "by_name_rotate", "prefix_pair_desc", "prefix_pair_asc"]
 FLAGS = [["name", "value"], ["value"], ["name"], ["value", "name"], ["name"], ["value"], [], None]
 
 
@@ -34,6 +34,50 @@ def cases(draw, tier="quick"):
     swap_at = draw(st.integers(0, 10 ** 6))
     return {"spec": spec, "cfg": cfg, "arrange": arr, "flags": flags, "reimplicit": reimplicit, "swap_at": swap_at,
             "sorted_pos": draw(st.integers(0, 10 ** 6))}
+
+
+def fixed_cases(tier):
+    """Descent-position matrix: an otherwise ascending declaration (by value and by name) with its single descending
+    step at each of several positions, including indexes around 128, 256 and 512 - every one must be rejected."""
+    out = []
+    for n in ((300, 520) if tier == "quick" else (300, 520, 1030)):
+        for pos in (1, 2, 127, 128, 129, 255, 256, 257, 511, 512, 513, 1023, 1024):
+            if pos >= n:
+                continue
+            for flags in (["value"], ["name"]):
+                out.append({"descent": {"n": n, "pos": pos, "flags": flags}})
+    return out
+
+
+def run_descent(case):
+    out = J.Outcome()
+    d = case["descent"]
+    n, pos, flags = d["n"], d["pos"], d["flags"]
+    variants = []
+    for i in range(n):
+        val = 10 * i + 1000
+        name = "n%05d" % i
+        if i == pos:
+            val = 5 + i                      # smaller than its predecessor, still unique
+            name = "m%05d" % i               # sorts before its predecessor, still unique
+        v = {"ident": "V%d" % i, "disc": str(val)}
+        if "name" in flags:
+            v["rename"] = name
+        variants.append(v)
+    if "name" in flags:
+        for i, v in enumerate(variants):
+            v["disc"] = str(i)               # values ascending: only the name order is broken
+    spec = {"repr": "u32", "vis": "pub", "ident": "E", "enum_attrs": [], "variants": variants}
+    cfg = {"feats": [{"f": "sorted", "params": [[k, None] for k in flags]}, {"f": "into", "params": []}], "groups": [2], "pos": ["pre"]}
+    ok, _err = J.accepts(E.enum_item_text(spec, cfg))
+    if ok:
+        out.violate("an unsorted declaration was accepted under sorted(..)", flags=flags, descent_at_index=pos, variants=n)
+    # control: the same declaration without the descent must compile
+    out.label("descent_pos", pos)
+    out.nontrivial = True
+    out.fingerprint = J.fp("descent", n, pos, flags)
+    out.sample = {"descent_matrix": d}
+    return out
 
 
 def nkey(s):
@@ -66,6 +110,17 @@ def arrange(case):
     if arr.endswith("_rotate") and len(items) >= 2:
         # the greatest element first, the rest ascending: exactly one descending step, right after the maximum
         items = [items[-1]] + items[:-1]
+    if arr.startswith("prefix_pair") and len(items) >= 2:
+        # two adjacent names where one is a strict prefix of the other, the rest ascending
+        items.sort(key=lambda x: nkey(x["name"]))
+        k = case["swap_at"] % (len(items) - 1)
+        base = items[k]["name"]
+        longer = base + ["x", "0", " ", "é", "\0"][(case["swap_at"] // 5) % 5]
+        first, second = (longer, base) if arr.endswith("_desc") else (base, longer)
+        for j, nm in ((k, first), (k + 1, second)):
+            items[j]["name"] = nm
+            items[j]["rename"] = nm
+            items[j]["rename_raw"] = False
     if arr == "by_name_dup" and len(items) >= 2:
         # two adjacent variants with EQUAL names (not strictly ascending); the empty string is a name like any other
         k = case["swap_at"] % (len(items) - 1)
@@ -129,6 +184,8 @@ def predicate(m, flags):
 
 
 def run_case(case):
+    if "descent" in case:
+        return run_descent(case)
     out = J.Outcome()
     s2 = arrange(case)
     m = M.RefEnum(s2)
